@@ -178,13 +178,16 @@ func (lm *levelManager) recover() int64 {
 	return maxVersion
 }
 
+// searchLowerBound returns the newest version of key's user key at or below key's timestamp
+// that any sstable holds.
 func (lm *levelManager) searchLowerBound(key types.Key) (types.Entry, bool) {
 	lm.mu.Lock()
 	defer lm.mu.Unlock()
 
-	if len(lm.levels) == 0 {
-		return types.Entry{}, false
-	}
+	var (
+		best  types.Entry
+		found bool
+	)
 
 	for level, tables := range lm.levels {
 		for e := tables.Front(); e != nil; e = e.Next() {
@@ -196,22 +199,27 @@ func (lm *levelManager) searchLowerBound(key types.Key) (types.Entry, bool) {
 				continue
 			}
 
-			// determine which data block the key is in
-			dataBlockHandle, ok := th.dataBlockIndex.Search(key)
+			// determine which data block holds the first entry >= key
+			dataBlockHandle, ok := th.dataBlockIndex.SearchLowerBound(key)
 			if !ok {
-				// not in this sstable, search next one
+				// all entries of this sstable are before key, search next one
 				continue
 			}
 
-			// in this sstable, search according to data block
 			entry, ok := lm.fetchAndSearchLowerBound(key, level, th.levelIdx, dataBlockHandle)
-			if ok {
-				return entry, true
+			if !ok || !types.IsSameKey(key, entry.Key) {
+				// this sstable holds no version of the key at or below the timestamp
+				continue
+			}
+
+			// sstables may overlap (always in L0), keep the newest version
+			if !found || types.ParseTs(entry.Key) > types.ParseTs(best.Key) {
+				best, found = entry, true
 			}
 		}
 	}
 
-	return types.Entry{}, false
+	return best, found
 }
 
 // TODO: replace with iterator
